@@ -1209,6 +1209,14 @@ func (c *VCtx) modSet(fn *ssa.Function, blocks map[*ssa.BasicBlock]bool, depth i
 				d, v, _ := mapHeapNames(mt)
 				mods[d] = ArrSort(SRef, ArrSort(sortOf(mt.Key()), SBool))
 				mods[v] = ArrSort(SRef, ArrSort(sortOf(mt.Key()), sortOf(mt.Elem())))
+			case *ssa.Next:
+				// a map iterator advances: its ghost set of visited keys grows
+				if rg, ok := x.Iter.(*ssa.Range); ok && !x.IsString {
+					if mt, ok := rg.X.Type().Underlying().(*types.Map); ok {
+						ks := sortOf(mt.Key())
+						mods["G:visited:"+string(ks)] = ArrSort(SRef, ArrSort(ks, SBool))
+					}
+				}
 			case *ssa.Alloc, *ssa.MakeSlice, *ssa.MakeChan, *ssa.MakeMap:
 				mods["G:alloc"] = ArrSort(SRef, SBool)
 				if ms, ok := x.(*ssa.MakeSlice); ok {
